@@ -106,6 +106,65 @@ func init() {
 				writeBeforeExec = lastAdd < write && write < exec
 			}
 		}
+		// EVERY place reapInternal starts executing a plan, in source order, classified:
+		//   "resumes-plan-read-from-file"  the enclosing block read the plan from REAP_PLAN just before
+		//   "after-plan-written"           a top-level return preceded by the top-level WriteToFile
+		//   "plan-not-written"             anything else (a branch executing a plan that is not on disk)
+		var sites []string
+		if fd := x.Func("snapshot", "Store", "reapInternal"); fd != nil {
+			topWrite := -1
+			for i, st := range fd.Body.List {
+				if _, isIf := st.(*ast.IfStmt); isIf && len(x.Calls(st, "WriteToFile")) > 0 && topWrite < 0 {
+					topWrite = i
+				}
+			}
+			var blocks []*ast.BlockStmt
+			var visit func(n ast.Node)
+			classify := func(c *ast.CallExpr) string {
+				inner := blocks[len(blocks)-1]
+				for _, st := range inner.List {
+					if _, isAssign := st.(*ast.AssignStmt); isAssign && st.End() <= c.Pos() && len(x.Calls(st, "ReadFromFile")) > 0 {
+						return "resumes-plan-read-from-file"
+					}
+				}
+				if inner == fd.Body && topWrite >= 0 {
+					for i, st := range fd.Body.List {
+						if st.Pos() <= c.Pos() && c.End() <= st.End() {
+							if _, isRet := st.(*ast.ReturnStmt); isRet && i > topWrite {
+								return "after-plan-written"
+							}
+						}
+					}
+				}
+				return "plan-not-written"
+			}
+			visit = func(n ast.Node) {
+				ast.Inspect(n, func(m ast.Node) bool {
+					if m == nil || m == n {
+						return true
+					}
+					if b, ok := m.(*ast.BlockStmt); ok {
+						blocks = append(blocks, b)
+						for _, st := range b.List {
+							visit(st)
+						}
+						blocks = blocks[:len(blocks)-1]
+						return false
+					}
+					if c, ok := m.(*ast.CallExpr); ok {
+						if nm := calleeName(c); nm == "executeReapPlan" || nm == "Execute" {
+							sites = append(sites, classify(c))
+						}
+					}
+					return true
+				})
+			}
+			blocks = append(blocks, fd.Body)
+			for _, st := range fd.Body.List {
+				visit(st)
+			}
+		}
+		x.DefStrings("reapExecuteSites", sites)
 		x.Raw("def reapRemoveOnly : List (String × String) := " + leanPairs(removeOnly))
 		x.Raw("def reapConsolidate : List (String × String) := " + leanPairs(consolidate))
 		x.DefOptBool("reapWriteBeforeExecute", writeBeforeExec, found)
@@ -134,6 +193,36 @@ func init() {
 				upWB = lastAdd < write && write < exec
 			}
 		}
+		x.Comment("Upgrade8To10: before looking for a plan, an EMPTY new directory is removed (if fsutil.DirExists(new) { … fsutil.DirIsEmpty(new) … os.Remove(new) })")
+		var rmEmpty, rmFound bool
+		if fd := x.Func("snapshot", "", "Upgrade8To10"); fd != nil {
+			rmFound = true
+			for _, st := range fd.Body.List {
+				is, ok := st.(*ast.IfStmt)
+				if !ok {
+					continue
+				}
+				if x.Src(is.Cond) == "fsutil.FileExists(planPath)" {
+					break // reached the resume branch without having seen the removal
+				}
+				if x.Src(is.Cond) == "fsutil.DirExists(new)" {
+					empties, removes := false, false
+					for _, c := range x.Calls(is.Body, "DirIsEmpty") {
+						if len(c.Args) == 1 && x.Src(c.Args[0]) == "new" {
+							empties = true
+						}
+					}
+					for _, c := range x.Calls(is.Body, "Remove") {
+						if len(c.Args) == 1 && x.Src(c.Args[0]) == "new" {
+							removes = true
+						}
+					}
+					rmEmpty = empties && removes
+					break
+				}
+			}
+		}
+		x.DefOptBool("upgradeRemovesEmptyNewFirst", rmEmpty, rmFound)
 		x.Raw("def upgrade8To10 : List (String × String) := " + leanPairs(up))
 		x.DefOptBool("upgradeWriteBeforeExecute", upWB, upFound)
 
